@@ -80,6 +80,11 @@ CLAIMS = {
         "Trusted: symx interception layer, z3; biweight_midvariance inside apply_weights is a solver-chosen member of {0, 0.3, 1.5}; coordinates concrete (pandas hashes coordinate tuples).",
         "DESIGN.md 4/C04",
     ),
+    "C05": (
+        "The real combine_probes / load_sample_block / bias_correct_logr / shift_sex_chroms / summarize_info run (corrections off) on cohorts of 1-2 samples (3 thorough) of every sex mix, for a male and a female reference, both naming styles, with and without antitarget files, every bin log2 symbolic; biweight_location / biweight_midvariance are spies, and z3 proves per path that each bin hands them exactly [neutral pseudo-sample, then each sample's log2 after median-centring (independent two-level median term) and the sex shift the statement prescribes], that the reference has exactly the input bins in genomic order, and that files whose bins differ are rejected. calculate_gc_lo is run on a symbolic sequence (<= 4 characters, 6 thorough, over ACGTacgtNn): gc and rmask are the G+C and lowercase fractions of the unambiguous bases; fasta_extract_regions requests the slice [start:end).",
+        "Trusted: symx interception layer, z3; stubs: read_cna (in-memory arrays), the two biweight estimators (spies; their numerics are C19's subject), pyfaidx. Corrections on, sex inference and clustering are outside.",
+        "DESIGN.md 4/C05",
+    ),
     "C06": (
         "Every feasible path of the real merge/flatten/subtract/intersection/subdivide/resize_ranges/total_range_size code on tables of <= 3 rows (quick; 4 thorough) with fully symbolic integer coordinates in [0, 10^6] is enumerated by z3; on each path the base-exactness oracle (one universally quantified position x) and the structural clauses are discharged as unsat. A bounded model check of the real code, not a proof: nothing is claimed beyond the row bounds.",
         "Trusted: the symx interception layer (object-dtype pandas semantics = int64 semantics, validated by replaying explored paths on the untouched code), z3; avg/min sizes of subdivide concrete.",
